@@ -325,7 +325,8 @@ def build(tier: str) -> CheckSpec:
         cubes.append(Cube(f"crash[{w}]", h_crash, {"k": int, "partial": int, "m": int, "prev_exists": bool}, {"which": w}, timeout=tmo, group=w))
         cubes.append(Cube(f"io-error[{w}]", h_fault, {"f": int, "e": int, "m": int, "prev_exists": bool}, {"which": w}, timeout=tmo, group=w))
         if tier != "quick":
-            cubes.append(Cube(f"io-error+crash[{w}]", h_fault_then_crash, {"f": int, "k": int, "partial": int, "m": int}, {"which": w}, timeout=tmo, group=w))
+            # a producer without clean-up steps after a failed call has no later step to be killed at: may be empty
+            cubes.append(Cube(f"io-error+crash[{w}]", h_fault_then_crash, {"f": int, "k": int, "partial": int, "m": int}, {"which": w}, timeout=tmo, group=w, allow_empty=True))
         cubes.append(Cube(f"twin: {w} publishes the complete file", twin_complete, {"m": int}, {"which": w}, timeout=60, role="twin"))
     return CheckSpec(
         property_id="C20",
